@@ -623,6 +623,13 @@ def check(ctx):
                             'cycle walker, found %d recursive walkers'
                             % len(ws))
     for w in ws:
+        if any(isinstance(n, (ast.Yield, ast.YieldFrom))
+               for n in ast.walk(w.node)):
+            raise AnalysisError(
+                'the validation walker %s is a recursive generator: what it '
+                'yields is judged by its consumer, a split the rules on the '
+                'walk (fold polarity, undefined / revisit tests) do not read'
+                % w.qual)
         cp = w.params[1] if len(w.params) > 1 else None
         for n in ast.walk(w.node):
             if isinstance(n, (ast.While, ast.For)) and any(
